@@ -41,8 +41,12 @@ fn random_shape(rng: &mut Rng, force_min_utxo: bool) -> Shape {
 }
 
 fn resolve_once(compiler: &mut Compiler, lowered: &tir::Tx, q: i128, lovelace: i128, tag: u8) -> Outcome {
+    resolve_with(compiler, lowered, &args(q), lovelace, tag)
+}
+
+fn resolve_with(compiler: &mut Compiler, lowered: &tir::Tx, argmap: &tx3_tir::reduce::ArgMap, lovelace: i128, tag: u8) -> Outcome {
     let store = LoggedStore::new(single_utxo_store(lovelace, 0, tag));
-    let r = crate::panics::catch(|| pollster::block_on(resolve_tx(AnyTir::V1Beta0(lowered.clone()), &args(q), compiler, &store, 6)));
+    let r = crate::panics::catch(|| pollster::block_on(resolve_tx(AnyTir::V1Beta0(lowered.clone()), argmap, compiler, &store, 6)));
     match r {
         Ok(Ok(c)) => Outcome::Ok { payload: c.payload, hash: c.hash, fee: c.fee },
         Ok(Err(e)) => Outcome::Err(crate::props::c01::err_sig(&e.to_string())),
@@ -55,7 +59,7 @@ impl Property for C20 {
         "C20"
     }
     fn rule(&self) -> String {
-        "histories of 0..4 earlier uses of one tx3_cardano::Compiler instance - resolutions through resolve_tx (templates 'pay' with 0..4 extra outputs, with and without min_utxo, with stores that make them succeed, fail at once, or fail in a later pass just below the minimum), direct compile() calls, direct evaluations of compiler operators and, in a fifth of the cases, a resolution of the target's twin (same body, another witness set) - followed by a target template (min_utxo on random output indices, an optional output that is dropped from the body in a third of the cases, incl. indices beyond the outputs of the previous transaction); the same target is resolved on a fresh, identically configured instance against the same single-UTxO store. Oracle: outcome (payload bytes + hash + fee, or error kind, or panic site) on the used instance = outcome on the fresh one; latest_tx_body before the target is logged as the candidate leak. Non-trivial: history length >= 1 and the target uses min_utxo; distinct = distinct (history, target, pparams).".into()
+        "histories of 0..4 earlier uses of one tx3_cardano::Compiler instance - resolutions through resolve_tx (templates 'pay' with 0..4 extra outputs, with and without min_utxo, with stores that make them succeed, fail at once, or fail in a later pass just below the minimum), direct compile() calls, direct evaluations of compiler operators and, in a fifth of the cases, a resolution of the target's twin (same body, another witness set) - followed by a target template (min_utxo on random output indices, an optional output that is dropped from the body in a third of the cases, incl. indices beyond the outputs of the previous transaction; in a third of the cases handed to resolve_tx with its arguments already applied, so that no parameter is left, and an empty or the same argument map); the same target is resolved on a fresh, identically configured instance against the same single-UTxO store. Oracle: outcome (payload bytes + hash + fee, or error kind, or panic site) on the used instance = outcome on the fresh one; latest_tx_body before the target is logged as the candidate leak. Non-trivial: history length >= 1 and the target uses min_utxo; distinct = distinct (history, target, pparams).".into()
     }
     fn assumptions(&self) -> Vec<String> {
         vec!["single-UTxO input blocks and the same store contents for both runs, so that hash order cannot differ between them".into()]
@@ -67,7 +71,7 @@ impl Property for C20 {
         }
     }
     fn required_features(&self, _tier: Tier) -> Vec<String> {
-        ["history/len-0", "history/len-4", "history/with-failure", "history/direct-compile", "history/direct-compiler-ops", "history/failure-just-below-the-minimum", "history/twin-with-another-witness-set", "target/min_utxo", "target/index-beyond-previous-outputs", "target/min_utxo+dropped-optional-output", "target/tight-balance", "outcome/ok", "state/latest_tx_body-set"].iter().map(|s| s.to_string()).collect()
+        ["history/len-0", "history/len-4", "history/with-failure", "history/direct-compile", "history/direct-compiler-ops", "history/failure-just-below-the-minimum", "history/twin-with-another-witness-set", "target/min_utxo", "target/index-beyond-previous-outputs", "target/min_utxo+dropped-optional-output", "target/tight-balance", "target/no-parameter-left", "outcome/ok", "state/latest_tx_body-set"].iter().map(|s| s.to_string()).collect()
     }
     fn run_case(&self, ctx: &mut Ctx, phase: &str, idx: u64, rng: &mut Rng) {
         let pp = PP { mainnet: rng.bool(), a: *rng.pick(&[44u64, 1, 100, 0]), b: *rng.pick(&[155_381u64, 0]), coins_per_utxo_byte: if rng.chance(1, 3) { rng.range(1, 40_000) as u64 } else { *rng.pick(&[4310u64, 1, 34482, 289, 290, 291]) }, extra_fees: *rng.pick(&[None, Some(0), Some(123_456)]), cost_models: vec![0, 1, 2], cost_salt: 0 };
@@ -186,10 +190,30 @@ impl Property for C20 {
                 history.push(json!({"step": "resolve_tx of the target's twin (same body, native script attached)", "outcome": o.kind()}));
             }
         }
+        // one time in three the target reaches resolve_tx with its arguments already applied (a client that
+        // applies arguments in an earlier step): no parameter is left, the call's argument map is empty or the same
+        let mut target = lowered.clone();
+        let mut argmap = args(q);
+        let mut target_form = "as-lowered";
+        if rng.chance(1, 3) {
+            if let Ok(Ok(AnyTir::V1Beta0(t))) = crate::panics::catch(|| tx3_tir::reduce::apply_args(AnyTir::V1Beta0(lowered.clone()), &args(q))) {
+                target = t;
+                target_form = if rng.bool() {
+                    argmap = Default::default();
+                    "arguments-pre-applied:empty-map"
+                } else {
+                    "arguments-pre-applied:same-map"
+                };
+                if tx3_tir::reduce::find_params(&AnyTir::V1Beta0(target.clone())).is_empty() {
+                    ctx.count("target/no-parameter-left");
+                }
+            }
+        }
+        ctx.count(&format!("target/{target_form}"));
         ctx.eval();
-        let on_used = resolve_once(&mut used, &lowered, q, lovelace, 0x77);
+        let on_used = resolve_with(&mut used, &target, &argmap, lovelace, 0x77);
         let mut fresh = env::compiler(&pp);
-        let on_fresh = resolve_once(&mut fresh, &lowered, q, lovelace, 0x77);
+        let on_fresh = resolve_with(&mut fresh, &target, &argmap, lovelace, 0x77);
         ctx.count(&format!("outcome/{}", if matches!(on_fresh, Outcome::Ok { .. }) { "ok" } else { "not-ok" }));
         if on_used != on_fresh {
             let pair = match (&on_used, &on_fresh) {
@@ -198,7 +222,7 @@ impl Property for C20 {
             };
             ctx.violation(
                 format!("history-dependence:{pair}"),
-                json!({"phase": phase, "history": history, "outputs_of_latest_tx_body_before_target": body_before, "target_source": src, "target_min_utxo_on_extra_outputs": target_shape.min_utxo_on,
+                json!({"phase": phase, "history": history, "target_form": target_form, "outputs_of_latest_tx_body_before_target": body_before, "target_source": src, "target_min_utxo_on_extra_outputs": target_shape.min_utxo_on,
                     "pparams": {"a": pp.a, "b": pp.b, "extra_fees": pp.extra_fees, "coins_per_utxo_byte": pp.coins_per_utxo_byte}, "quantity": q.to_string(), "utxo_lovelace": lovelace.to_string(),
                     "on_used_instance": format!("{on_used:?}").chars().take(600).collect::<String>(), "on_fresh_instance": format!("{on_fresh:?}").chars().take(600).collect::<String>()}),
             );
